@@ -1,3 +1,52 @@
-From Cache Require Import Base Failover.
-Theorem C01_placeholder : True. Proof. exact I. Qed.
-Print Assumptions C01_placeholder.
+(* C01 — Failover never runs two builds for the same key at the same time. Statements only. *)
+From Cache Require Import Base Failover FailoverProofs.
+
+(* For every staleness / nil test, every configuration (SyncUpdate, SyncRead, FailHard, MaxStaleness,
+   FailedUpdateTTL, loggers, stats; Failover and FailoverOf), every label sequence — any number of
+   Gets on any keys arriving at any time, any interleaving of their steps (each call-out and each
+   shared access is a step), any backend answers and injected faults, any builder outcomes, any
+   clock — in the state reached: two distinct threads are never both inside the builder for the
+   same key. *)
+Theorem C01_no_overlapping_builds : forall fe nilb c ls s,
+  frun fe nilb c f0 ls = Some s ->
+  forall t1 t2 th1 th2, threads s !! t1 = Some th1 -> threads s !! t2 = Some th2 ->
+    in_builder th1 -> in_builder th2 -> t_key th1 = t_key th2 -> t1 = t2.
+Proof. exact no_overlapping_builds. Qed.
+Print Assumptions C01_no_overlapping_builds.
+
+(* the same on the event log of every reachable state: scanning it, a builder is never entered for
+   a key whose previous build has not ended (C01_obs is the predicate also evaluated on the
+   implementation's traces) *)
+Theorem C01_log_intervals_disjoint : forall fe nilb c ls s,
+  frun fe nilb c f0 ls = Some s -> C01_obs (flog s) = true.
+Proof. exact c01_obs_holds. Qed.
+Print Assumptions C01_log_intervals_disjoint.
+
+(* stronger: the whole owner region (stale refresh, failure-cache read, build, publish, release) is
+   exclusive per key *)
+Theorem C01_owner_region_exclusive : forall fe nilb c ls s,
+  frun fe nilb c f0 ls = Some s ->
+  forall t1 t2 th1 th2, threads s !! t1 = Some th1 -> threads s !! t2 = Some th2 ->
+    needs_own (t_pc th1) = true -> needs_own (t_pc th2) = true -> t_key th1 = t_key th2 -> t1 = t2.
+Proof. exact owner_region_exclusive. Qed.
+Print Assumptions C01_owner_region_exclusive.
+
+(* the inductive invariant behind it *)
+Theorem C01_lock_invariant : forall fe nilb c ls s, frun fe nilb c f0 ls = Some s -> LInv s.
+Proof. intros fe nilb c ls s H. exact (LInv_run fe nilb c ls f0 s LInv_init H). Qed.
+Print Assumptions C01_lock_invariant.
+
+(* Non-vacuity: two Gets on one stale key, background update; the second finds the key locked
+   while the first one's background build is inside the builder. *)
+Example C01_nonvacuous :
+  let c := mkFcfg Legacy false false false 0 (20 * sec) minute false false false in
+  let o := mkOrc 1000 (RExp 5 900) None (inl 7) [] 0 in
+  match frun_x c f0 [LSpawn 1%N [1%N] false None; LStep 1%N o; LStep 1%N o; LSpawn 2%N [1%N] false None;
+                     LStep 2%N o; LStep 1%N o; LStep 1%N o; LStep 1%N o; LStep 1%N o; LStep 1%N o;
+                     LStep 2%N o; LStep 2%N o; LStep 1001%N o] with
+  | Some s => option_map t_pc (threads s !! 1001%N) = Some PBuilderExit /\
+              option_map t_pc (threads s !! 1%N) = Some PDone /\
+              option_map t_wait (threads s !! 2%N) = Some (Some 0%N)
+  | None => False
+  end.
+Proof. vm_compute. repeat split; reflexivity. Qed.
